@@ -206,7 +206,7 @@ type ex struct {
 	outer   *fifo.Group
 	req     *http.Request
 	remove  func()
-	loopSig string // "" = the last stackreq's Via did not name this instance; else the sig to use if 400 is missing
+	loopSig string // "" = the last stackreq's Via did not name this instance; "?" = undecidable; else the sig to use if 400 is missing
 	e2e     *e2eEnv
 }
 
@@ -375,6 +375,9 @@ func (e *ex) Do(op string) core.Result {
 		mine := fmt.Sprintf("%d.%d %s-%s", req.ProtoMajor, req.ProtoMinor, name, bd)
 		fs, loopSig := oracleStackReq(before, req.Header, name+"-"+bd, mine, scheme, host, us, remote, cls, skip)
 		e.loopSig = loopSig
+		if !viaDecidable(before["Via"]) || exotic(before["Connection"]) {
+			e.loopSig = "?" // the oracle abstains on this request's loop clause, hence on the response status too
+		}
 		if f := first(fs); f != nil {
 			r.Fail, r.Sig = f.msg, f.sig
 		}
@@ -408,7 +411,9 @@ func (e *ex) Do(op string) core.Result {
 		cls := errClass(merr)
 		r := core.Result{Impl: fmt.Sprintf("%s %d %s", cls, res.StatusCode, encHeader(res.Header))}
 		var fs []*fl
-		if e.loopSig != "" {
+		if e.loopSig == "?" {
+			core.Count("stackres:oracle-abstains")
+		} else if e.loopSig != "" {
 			if res.StatusCode != 400 {
 				fs = append(fs, &fl{e.loopSig, fmt.Sprintf("the request's Via named this instance but the response status is %d, not 400", res.StatusCode)})
 			}
